@@ -99,6 +99,49 @@ def reviewedTokenWrites : List ((String × String × String) × Memo) := [
   -- histories: `map{'k': $v}('k')`, map:keys / size / merge / put
   (("elementpath/xpath_tokens/maps.py", "XPathMap._evaluate", "self._nan_key ="), .dynamic)]
 
+/-- writes, inside functions, to state that outlives a call (module-level names, class attributes,
+imported modules), memoising decorators, mutable defaults.  `static` = the stored value does not
+depend on any argument / context of an evaluation (registration tables filled at import, memo of a
+pure function keyed by ALL its arguments, lazily built constant); `dynamic` = it can, and is tied by
+the named histories. -/
+def reviewedModuleWrites : List ((String × String × String × String) × Memo) := [
+  -- class construction (metaclasses) and symbol registration, executed while the package is imported
+  (("class", "elementpath/datatypes/any_types.py", "AtomicTypeMeta.__new__", "cls.__doc__ ="), .static),
+  (("class", "elementpath/tdop.py", "Parser.build", "cls.tokenizer ="), .static),
+  (("class", "elementpath/tdop.py", "Parser.register", "cls.symbol_table[...] ="), .static),
+  (("class", "elementpath/tdop.py", "Parser.unregister", "cls.symbol_table[...] del"), .static),
+  (("class", "elementpath/tdop.py", "ParserMeta.__new__", "cls.literals_pattern ="), .static),
+  (("class", "elementpath/tdop.py", "ParserMeta.__new__", "cls.name_pattern ="), .static),
+  (("class", "elementpath/tdop.py", "ParserMeta.__new__", "cls.symbol_table ="), .static),
+  (("class", "elementpath/tdop.py", "ParserMeta.__new__", "cls.symbol_table.update()"), .static),
+  (("class", "elementpath/tdop.py", "ParserMeta.__new__", "cls.token_base_class ="), .static),
+  (("class", "elementpath/tdop.py", "ParserMeta.__new__", "cls.tokenizer ="), .static),
+  (("class", "elementpath/xpath1/xpath1_parser.py", "XPath1Parser.function", "cls.function_signatures[...] ="), .static),
+  (("class", "elementpath/xpath1/xpath1_parser.py", "XPath1Parser.proxy", "cls.symbol_table.pop()"), .static),
+  (("class", "elementpath/xpath1/xpath1_parser.py", "XPath1Parser.proxy", "cls.symbol_table[...] ="), .static),
+  (("imported-module", "elementpath/tdop.py", "Parser.register", "setattr(sys.modules[cls.__module__], ...)"), .static),
+  -- copy-on-write: each is preceded by `if self.x is self.__class__.x: self.x = copy(self.x)` (xpath2_parser.py)
+  -- or `self.decimal_formats = deepcopy(self.decimal_formats)` (xpath30_parser.py): the INSTANCE's own table
+  (("class-via-self", "elementpath/xpath2/xpath2_parser.py", "XPath2Parser.external_function", "self.function_signatures[...] ="), .dynamic),
+  (("class-via-self", "elementpath/xpath2/xpath2_parser.py", "XPath2Parser.external_function", "self.symbol_table[...] ="), .dynamic),
+  (("class-via-self", "elementpath/xpath2/xpath2_parser.py", "XPath2Parser.schema_constructor", "self.symbol_table[...] ="), .dynamic),
+  (("class-via-self", "elementpath/xpath30/xpath30_parser.py", "XPath30Parser.__init__", "self.decimal_formats[...] ="), .dynamic),
+  (("class-via-self", "elementpath/xpath30/xpath30_parser.py", "XPath30Parser.__init__", "self.decimal_formats[None].update()"), .dynamic),
+  (("class-via-self", "elementpath/xpath30/xpath30_parser.py", "XPath30Parser.__init__", "self.decimal_formats[k].update()"), .dynamic),
+  -- memo of pure functions of their (string) arguments; `cached_find` is per schema proxy (C20); `etree` per context
+  (("memo-decorator", "elementpath/schema_proxy.py", "AbstractSchemaProxy.cached_find", "@lru_cache"), .dynamic),
+  (("memo-decorator", "elementpath/sequence_types.py", "is_sequence_type.is_st", "@cache"), .static),
+  (("memo-decorator", "elementpath/sequence_types.py", "is_sequence_type_restriction", "@cache"), .static),
+  (("memo-decorator", "elementpath/sequence_types.py", "normalize_sequence_type", "@cache"), .static),
+  (("memo-decorator", "elementpath/xpath_context.py", "XPathContext.etree", "@cached_property"), .static),
+  -- Unicode tables: cache keyed by table function, cleared by install_unicode_data (explicit user call; C13)
+  (("module", "elementpath/regex/unicode_subsets.py", "install_unicode_data", "__subsets_cache.clear()"), .dynamic),
+  (("module", "elementpath/regex/unicode_subsets.py", "install_unicode_data", "global __unicode_data ="), .dynamic),
+  (("module", "elementpath/regex/unicode_subsets.py", "lazy_subset.wrapper", "__subsets_cache[...] ="), .static),
+  -- validation schemas built once from a constant source
+  (("module", "elementpath/validators/__init__.py", "validate_analyzed_string", "global analyzed_string_schema ="), .static),
+  (("module", "elementpath/validators/__init__.py", "validate_json_to_xml", "global json_to_xml_schema ="), .static)]
+
 /-- is a scanned write site (kind, file, function, site) acceptable? -/
 def treeWriteOk (w : String × String × String × String) : Bool :=
   match w with
